@@ -118,43 +118,18 @@ Definition check_one (c : ccase) (ob : cobs) : bool * bool * bool :=
   end.
 
 (* ---- histories ---------------------------------------------------------------------------- *)
-Fixpoint pos_of_names (t : tree) (rest : list str) : option pos :=
-  match rest with
-  | [] => Some []
-  | nm :: rest' =>
-      match find_idx nm 0 (tkids t) with
-      | i :: _ => match nth_error (tkids t) i with
-                  | Some k => match pos_of_names k rest' with Some p => Some (i :: p) | None => None end
-                  | None => None
-                  end
-      | [] => None
-      end
-  end.
-(* names: the root's name first *)
-Definition pos_of_path (t : tree) (p : list str) : option pos :=
-  match p with
-  | r :: rest => if str_eqb r (tname t) then pos_of_names t rest else None
-  | [] => None
-  end.
-
-Fixpoint remove_nth {A} (i : nat) (l : list A) : list A :=
-  match l with [] => [] | x :: r => match i with 0 => r | S j => x :: remove_nth j r end end.
-Fixpoint remove_at (p : pos) (t : tree) : tree :=
-  match p with
-  | [] => t
-  | [i] => match t with T g n a ks => T g n a (remove_nth i ks) end
-  | i :: p' => match t with T g n a ks => T g n a (upd_nth i (remove_at p') ks) end
-  end.
-Fixpoint insert_sorted (k : tree) (l : list tree) : list tree :=
-  match l with
-  | [] => [k]
-  | x :: r => if str_ltb (tname k) (tname x) then k :: l else x :: insert_sorted k r
-  end.
-(* list.sort(key=name) is stable; sibling names are distinct anyway *)
-Definition sort_kids (t : tree) : tree :=
-  match t with T g n a ks => T g n a (fold_right insert_sorted [] ks) end.
-
 Definition set_nth {A} (i : nat) (x : A) (l : list A) : list A := upd_nth i (fun _ => x) l.
+
+(* a structural edit on tree ti (Algo/Construct.v hedit); a missing target is a harness error *)
+Definition edit_op (c : ccase) (ts : list tree) (ti : nat) (op : hop)
+           (k : list tree -> bool * bool) : bool * bool :=
+  match nth_error ts ti with
+  | Some t => match hedit t op with
+              | Some t' => k (set_nth ti t' ts)
+              | None => (true, false)
+              end
+  | None => (true, false)
+  end.
 
 (* flags of a history: (disagree, propfail); `ts` = the model's trees *)
 Fixpoint run_ops (c : ccase) (ts : list tree) (ops : list sop) : bool * bool :=
@@ -172,40 +147,9 @@ Fixpoint run_ops (c : ccase) (ts : list tree) (ops : list sop) : bool * bool :=
               (negb (agree m o) || fst r, negb (prop_C05 KAddPath i o) || snd r)
           | _, _ => (true, false)
           end
-      | SDel ti p =>
-          match nth_error ts ti with
-          | Some t => match pos_of_path t p with
-                      | Some q => run_ops c (set_nth ti (remove_at q t) ts) rest
-                      | None => (true, false)
-                      end
-          | None => (true, false)
-          end
-      | SMove ti src dst =>
-          match nth_error ts ti with
-          | Some t =>
-              match pos_of_path t src with
-              | Some q =>
-                  match subtree_at t q with
-                  | Some sub =>
-                      let t1 := remove_at q t in
-                      match pos_of_path t1 dst with
-                      | Some d => run_ops c (set_nth ti (upd_at d (add_kid sub) t1) ts) rest
-                      | None => (true, false)
-                      end
-                  | None => (true, false)
-                  end
-              | None => (true, false)
-              end
-          | None => (true, false)
-          end
-      | SSort ti p =>
-          match nth_error ts ti with
-          | Some t => match pos_of_path t p with
-                      | Some q => run_ops c (set_nth ti (upd_at q sort_kids t) ts) rest
-                      | None => (true, false)
-                      end
-          | None => (true, false)
-          end
+      | SDel ti p => edit_op c ts ti (HDel p) (fun ts' => run_ops c ts' rest)
+      | SMove ti src dst => edit_op c ts ti (HMove src dst) (fun ts' => run_ops c ts' rest)
+      | SSort ti p => edit_op c ts ti (HSort p) (fun ts' => run_ops c ts' rest)
       end
   end.
 
